@@ -36,7 +36,7 @@ func buildPeg() (string, error) {
 	cmd := exec.Command("go", "build", "-o", bin+".tmp", ".")
 	cmd.Dir = engine.RepoDir
 	cmd.Env = engine.GoEnv()
-	if out, err := cmd.CombinedOutput(); err != nil {
+	if out, err := engine.RunLocked(cmd); err != nil {
 		return "", fmt.Errorf("building peg from %s failed:\n%s", engine.RepoDir, out)
 	}
 	return bin, os.Rename(bin+".tmp", bin)
